@@ -58,6 +58,9 @@ META["rule"] += (
 META["rule"] += (
     " " + 'Added after the eighth round: set_edge_list on an object that held a larger network; every clone (copy, deepcopy, pickle, undirected copy) is changed afterwards and the original judged again.')
 
+META["rule"] += (
+    " " + 'Added after the ninth round: history save -> new links -> save -> Load on one object.')
+
 FORMATS = ["graphml", "graphmlz", "pickle", "gml"]
 
 
@@ -421,6 +424,21 @@ def one_input(ctx, inp, cid, tmp, heavy=True):
                 ctx.count("files_loaded_twice")
                 build(f"Load-change-Load-again:{fmt}", twice,
                       text=fmt != "pickle")
+            # history on one object: save, replace the links (the weights
+            # and attributes of the final network are set as on every other
+            # path, weights first), save again, load the second file
+            def rt_topology(fmt=FORMATS[(n + int(A.sum())) % len(FORMATS)]):
+                o = Network(adjacency=(1 - A) - np.eye(n, dtype=A.dtype)
+                            if not d else A.T.copy(), directed=d,
+                            node_weights=w, silence_level=3)
+                o.save(os.path.join(tmp, f"t1.{fmt}"), fileformat=fmt)
+                o.adjacency = A
+                with_attr(o)
+                o.save(os.path.join(tmp, f"t2.{fmt}"), fileformat=fmt)
+                return Network.Load(os.path.join(tmp, f"t2.{fmt}"),
+                                    fileformat=fmt, silence_level=3)
+            ctx.count("roundtrips")
+            build("save-new-links-save-Load", rt_topology, text=True)
             # history on one object: save, change the node weights (back
             # to unit / to new values), save again, load the second file
             fmt = FORMATS[int(ctx.rng("fmt", cid).integers(0, len(FORMATS)))]
